@@ -208,12 +208,39 @@ impl FsCommand {
     /// operations that the real run does not perform.
     fn check_preconditions(&self) -> io::Result<()> {
         match self {
-            FsCommand::Remove { .. } => Ok(()),
+            FsCommand::Remove { file } => Self::check_can_unlink(&file.path),
             FsCommand::SoftLink { link, .. }
             | FsCommand::HardLink { link, .. }
-            | FsCommand::RefLink { link, .. } => Self::check_can_create_temp_file(&link.path),
-            FsCommand::Move { source, target, .. } => Self::check_can_rename(&source.path, target),
+            | FsCommand::RefLink { link, .. } => {
+                Self::check_can_unlink(&link.path)?;
+                Self::check_can_create_temp_file(&link.path)
+            }
+            FsCommand::Move { source, target, .. } => {
+                Self::check_can_unlink(&source.path)?;
+                Self::check_can_rename(&source.path, target)
+            }
         }
+    }
+
+    /// Removing a file or renaming it away takes the permission to write to its directory.
+    fn check_can_unlink(path: &Path) -> io::Result<()> {
+        #[cfg(unix)]
+        if let Some(dir) = path.parent() {
+            use nix::unistd::{access, AccessFlags};
+            if let Err(e) = access(&dir.to_path_buf(), AccessFlags::W_OK | AccessFlags::X_OK) {
+                let e = io::Error::from(e);
+                return Err(io::Error::new(
+                    e.kind(),
+                    format!(
+                        "Cannot remove or replace {}: cannot modify directory {}: {}",
+                        path.display(),
+                        dir.display(),
+                        e
+                    ),
+                ));
+            }
+        }
+        Ok(())
     }
 
     /// The file is replaced with the help of a temporary sibling.
